@@ -1360,7 +1360,9 @@ class DiskRefsContainer(RefsContainer):
             # This avoids fsync when ref is unchanged but still detects lock conflicts
             current_ref = self.read_loose_ref(realname)
             if current_ref is None:
-                current_ref = packed_refs.get(realname, None)
+                # not the snapshot taken before the lock: the packed entry may
+                # have been deleted or rewritten since
+                current_ref = self.get_packed_refs().get(realname, None)
 
             if current_ref is not None and current_ref == new_ref:
                 # Ref already has desired value, abort write to avoid fsync
